@@ -1043,6 +1043,55 @@ impl Gen<'_, '_> {
     }
 }
 
+/// Hand-written programs (C15 scenarios, C19 set-ups): operations are appended to tasks and the
+/// operand waits between tasks are inserted exactly as the decoder does.
+pub struct Builder {
+    pub tasks: Vec<TaskProg>,
+    producer: std::collections::BTreeMap<(usize, Res), usize>,
+    unbound: [usize; 2],
+    scopes: usize,
+}
+
+impl Builder {
+    /// `task_clients[i]` is the client of task i.
+    pub fn new(task_clients: &[usize]) -> Self {
+        Builder {
+            tasks: task_clients.iter().map(|c| TaskProg { client: *c, ops: vec![] }).collect(),
+            producer: Default::default(),
+            unbound: [0, 0],
+            scopes: 0,
+        }
+    }
+
+    pub fn op(&mut self, task: usize, op: Op) -> &mut Self {
+        let ci = self.tasks[task].client;
+        for (scope, res) in needs(ci, &op) {
+            if let Some(tp) = self.producer.get(&(scope, res)) {
+                if *tp != task && self.tasks[task].ops.last() != Some(&Op::WaitFor(res)) {
+                    self.tasks[task].ops.push(Op::WaitFor(res));
+                }
+            }
+        }
+        for (scope, res) in produces(ci, &op, &self.unbound, self.scopes) {
+            self.producer.insert((scope, res), task);
+        }
+        match &op {
+            Op::Unbind { end, .. } => self.unbound[*end as usize] += 1,
+            Op::CreateScope { .. } => self.scopes += 1,
+            _ => {}
+        }
+        self.tasks[task].ops.push(op);
+        self
+    }
+
+    pub fn ops(&mut self, task: usize, ops: Vec<Op>) -> &mut Self {
+        for op in ops {
+            self.op(task, op);
+        }
+        self
+    }
+}
+
 pub fn render_program(p: &Program) -> String {
     let mut s = String::new();
     s.push_str(&format!(
